@@ -200,7 +200,7 @@ def role(ctx, name):
     elif name == "string_union_resolver":
         cands = fns_by_sig(ctx, lambda i: len(i) == 2 and i[1] == "&%sTsType" % A, lambda o: o == "alloc::vec::Vec<swc_atoms::Atom>")
     elif name == "props_builder":
-        cands = fns_by_sig(ctx, lambda i: len(i) == 3 and i[1] == "&%sTsTypeAnn" % A, lambda o: o == A + "ObjectLit")
+        cands = fns_by_sig(ctx, lambda i: len(i) == 3 and i[1] in ("&%sTsTypeAnn" % A, "&%sTsType" % A), lambda o: o == A + "ObjectLit")
     elif name == "v_models_decoupler":
         cands = fns_by_sig(ctx, lambda i: i == ["alloc::vec::Vec<core::option::Option<%sExprOrSpread>>" % A], lambda o: "Iterator" in o)
     elif name == "slot_helper_builder":
